@@ -1239,6 +1239,18 @@ func withPauseRace(r *rand.Rand) string {
 		[]string{"", " prov=mem"}[r.Intn(2)])
 }
 
+// withLateLastToken (round 6): a SHARED RPS profile that is SLOW (1 - 2 tokens per second, possibly behind a burst and a pause) so
+// that for a second or more exactly one or two tokens are still to come (Left() is 1 or 2, not 0) while the first instance sleeps
+// on the token it has drawn — and a startup profile that releases tokens in that time: the profile is not finished, so those
+// startup tokens must become instances
+func withLateLastToken(r *rand.Rand) string {
+	rps := []string{"const:1:3000", "const:2:2000", "once:1+const:1:3000", "const:1:2000+const:0:500+const:1:2000", "once:2+const:0:500+const:1:3000"}[r.Intn(5)]
+	at := 1300 + 100*r.Intn(5) // between the second and the last token of every profile above, >= 300 ms before its last token is drawn
+	su := []string{fmt.Sprintf("once:1+const:0:%d+once:%d", at, 1+r.Intn(3)), fmt.Sprintf("once:1+const:0:%d+step:1:2:1:100", at),
+		fmt.Sprintf("[once:1+const:0:%d]+once:2", at)}[r.Intn(3)]
+	return fmt.Sprintf("startup=%s rps=%s ammo=0 resp=%d%s", su, rps, 5*r.Intn(2), []string{"", " prov=mem"}[r.Intn(2)])
+}
+
 // withStall (round 6): one shot of instance 0 hangs (a hiccup of the target) for longer / shorter than coreutil.MaxOverdueDuration,
 // with and without discard_overflow.  With per-instance profiles (two tokens at once, a pause longer than the hiccup, then a slow
 // const part) the second token is overdue by the length of the hiccup when the instance comes back — discarded only if the option
@@ -1419,6 +1431,9 @@ func gen(r *rand.Rand, tier string) []string {
 		"startup=once:2+const:0:600+once:2 rps=once:2+const:0:300+const:10:1800 ammo=0 resp=5 yield=2000",
 		"startup=once:3+const:0:800+once:1 rps=once:6+once:0+const:20:2000 ammo=0 resp=3 yield=1500 prov=mem",
 		"startup=once:4+const:0:500+step:1:2:1:300 rps=[once:4+once:4]+none+const:0:200+const:10:2000 ammo=0 resp=4 yield=1000",
+		// round 6 — a slow shared RPS profile: for a second or more one token is still to come; startup tokens released meanwhile must become instances
+		"startup=once:1+const:0:1500+once:2 rps=const:1:3000 ammo=0 resp=0",
+		"startup=once:1+const:0:1400+once:1 rps=once:2+const:0:500+const:1:3000 ammo=0 resp=5 prov=mem",
 		// round 6 — a shot that hangs for more than MaxOverdueDuration (2 s) with discard_overflow on: the token that became >= 2 s
 		// overdue meanwhile is discarded, every token waited for in time afterwards is FIRED; the same with the option off / a
 		// shorter hiccup: nothing is discarded
@@ -1439,10 +1454,10 @@ func gen(r *rand.Rand, tier string) []string {
 		return strings.Join(segs, " || ")
 	}
 	n, nfree, npools, nunk, nrace := 14, 6, 2, 4, 3
-	npause, nstall := 4, 3
+	npause, nstall, nlate := 4, 3, 2
 	if tier == "thorough" {
 		n, nfree, npools, nunk, nrace = 1000, 800, 150, 150, 80
-		npause, nstall = 100, 60
+		npause, nstall, nlate = 100, 60, 60
 		// exhaustive small grid: every profile shape x every cause x every position of the cause
 		for _, su := range gridProfiles {
 			out = append(out, withCause(r, su, 0, 0), withCause(r, su, 5, 0))
@@ -1487,6 +1502,9 @@ func gen(r *rand.Rand, tier string) []string {
 	}
 	for i := 0; i < nstall; i++ {
 		out = append(out, withStall(r))
+	}
+	for i := 0; i < nlate; i++ {
+		out = append(out, asFile(withLateLastToken(r)))
 	}
 	return out
 }
